@@ -555,6 +555,37 @@ def scenario_subst(ch, cfg):
     if rl != ("ok", ("i", rn * (rn + 1) // 2)):
         viol("C03:subst:recursion-through-dot-f-shares-locals",
              f"RL::{{[a];a::x;:[x<1;0;a+.f(x-1)]}}; RL({rn}) gives {rl}, expected {rn * (rn + 1) // 2} (the local a of an outer level is overwritten by the inner call)")
+    # two different recursive functions, the second called from inside a recursive activation of the first (either
+    # operand order): RB(i) = 100+i, RA(n) = sum of RB(1..n).  Every level's .f must be the function it is in.
+    bump("probe_nested_recursions")
+    for ra_body in (":[x<1;0;.f(x-1)+RB(x)]", ":[x<1;0;RB(x)+.f(x-1)]"):
+        kN, tN = fresh()
+        kN("RB::{:[x<1;100;1+.f(x-1)]}")
+        kN(f"RA::{{{ra_body}}}")
+        rnn = _run(kN, f"RA({rn})")
+        evaluations += 1
+        if rnn != ("ok", ("i", 100 * rn + rn * (rn + 1) // 2)):
+            viol("C03:subst:nested-recursions-through-dot-f", f"RB::{{:[x<1;100;1+.f(x-1)]}}; RA::{{{ra_body}}}; RA({rn}) gives {rnn}, "
+                 f"expected {100 * rn + rn * (rn + 1) // 2}")
+    # functions without parameters and without declared locals: recursion through .f inside another function's call,
+    # and the caller's parameter afterwards
+    bump("probe_nilad_calls")
+    kZ, tZ = fresh()
+    kZ("cnt::0")
+    kZ("TK::{cnt::cnt+1;:[cnt<5;.f();cnt]}")
+    kZ("OU::{TK()+x}")
+    rz = _run(kZ, "OU(10)")
+    rz2 = _run(kZ, "cnt::2;TK()")
+    evaluations += 2
+    if rz != ("ok", ("i", 15)) or rz2 != ("ok", ("i", 5)):
+        viol("C03:subst:nilad-recursion-through-dot-f", f"cnt::0; TK::{{cnt::cnt+1;:[cnt<5;.f();cnt]}}; OU::{{TK()+x}}; OU(10) gives {rz} (expected 15); "
+             f"then cnt::2;TK() gives {rz2} (expected 5)")
+    # the caller's parameters and locals must be what they were after a parameter-less callee has run
+    kZ("KP::{[a];a::x*2;TK();a+x}")
+    rz3 = _run(kZ, "cnt::4;KP(3)")
+    evaluations += 1
+    if rz3 != ("ok", ("i", 9)):
+        viol("C03:subst:nilad-call-disturbs-caller", f"KP::{{[a];a::x*2;TK();a+x}}; cnt::4;KP(3) gives {rz3}, expected 9")
     # a projection whose pre-filled argument is a literal list
     if n >= 2 and body in ("x,y", "y,x", "x,y,z", "z,y,x"):
         lit_first = ";".join(["[1 2]"] + [""] * (n - 1))
@@ -590,6 +621,15 @@ def scenario_subst(ch, cfg):
         # over: F/[a b] == F(a;b)
         bump("probe_subst_over")
         check("over", [f"F/[{args[0]} {args[1]}]"])
+    if n == 2:
+        # over with the rows of a rectangular matrix as operands: F/[[1 2] [3 4]] == the body with x=[1 2], y=[3 4]
+        bump("probe_subst_over_matrix")
+        kM, tM = fresh()
+        kM("sx::[1 2]")
+        kM("sy::[3 4]")
+        subm = re.sub(r"\b([xyz])\b", r"s\1", body[2:-1].split(";")[1] if body.startswith(":[") else body)
+        wantm = _run(kM, "{" + subm + "}()")
+        check("over-matrix", ["F/[[1 2] [3 4]]"], want=wantm)
     # ---- projections: every non-empty proper subset of holes, filled in every order, one or several steps
     if n >= 2:
         bump("probe_subst_projection_patterns")
